@@ -453,6 +453,52 @@ func runC14(c *core.Ctx) core.Meta {
 				}
 			}
 		}
+		// a release is visible to the rest of the pass: the range loop walks the list
+		// as it was when the pass began, so a wavefront that a release earlier in the
+		// pass set ready can still come up; before it is evaluated as waiting, the
+		// loop body must consult something the release wrote (a set of released
+		// work-groups, or the wavefront's own state)
+		{
+			released := map[ssa.Value]bool{}
+			for _, n := range g.Nodes {
+				if mu, ok := n.Instr.(*ssa.MapUpdate); ok {
+					released[mu.Map] = true
+				}
+			}
+			visible := boolCutAny(func(_ *core.Node, v ssa.Value) bool {
+				switch t := v.(type) {
+				case *ssa.Lookup:
+					return released[t.X]
+				case *ssa.Extract:
+					if lk, ok := t.Tuple.(*ssa.Lookup); ok {
+						return released[lk.X]
+					}
+				case *ssa.BinOp:
+					for _, o := range []ssa.Value{t.X, t.Y} {
+						if f := core.LoadedField(o); f != nil && f.Name() == "State" {
+							return true
+						}
+					}
+				}
+				return false
+			})
+			for _, n := range g.Nodes {
+				call, ok := n.Instr.(*ssa.Call)
+				if !ok || call.Call.StaticCallee() == nil {
+					continue
+				}
+				if nm := call.Call.StaticCallee().Name(); nm != "evalSBarrier" && nm != "evalSEndPgm" {
+					continue
+				}
+				st6.Instances++
+				okV := g.Guarded(n, visible)
+				st6.Ob(okV)
+				if !okV {
+					c.ReportAt("R14.6", fn, n.Instr.Pos(), "release:not-visible-in-pass:"+call.Call.StaticCallee().Name(), "the pass evaluates a wavefront without consulting anything a barrier release earlier in the same pass wrote (the loop ranges over the list as it was at the start): a wavefront that was just released and set ready is evaluated as waiting at its barrier again, parked with its PC already past the barrier, and the next release skips an instruction")
+				}
+			}
+		}
+
 		// a completed instruction is not kept
 		st6.Instances++
 		okKeep := true
